@@ -15,6 +15,7 @@ func cmdParamMaterialise(args []string) error {
 	casesPath := fs.String("cases", "", "ndjson: {p: descriptor}")
 	out := fs.String("out", "spec.json", "")
 	base := fs.Int("base", 0, "index of the first operation")
+	media := fs.String("media", "operation", "where the form media type is declared: operation (own consumes) | document (inherited)")
 	_ = fs.Parse(args)
 	rows, err := readNDJSON(*casesPath)
 	if err != nil {
@@ -24,7 +25,7 @@ func cmdParamMaterialise(args []string) error {
 	for i, r := range rows {
 		if b, ok := r["body"].(string); ok { // body parameter: the schema inline
 			op := obj{"operationId": fmt.Sprintf("op%d", *base+i), "responses": obj{"200": obj{"description": "ok"}},
-				"x-verif-body": b,
+				"x-verif-body": b, "consumes": []any{"application/json"},
 				"parameters": []any{obj{"name": "body", "in": "body", "required": true, "schema": absSchema(r["schema"])}}}
 			paths[fmt.Sprintf("/c03/op%d", *base+i)] = obj{"post": op}
 			continue
@@ -62,12 +63,18 @@ func cmdParamMaterialise(args []string) error {
 		case "path":
 			path += "/{p}"
 		case "formData":
-			op["consumes"] = []any{"application/x-www-form-urlencoded"}
+			if *media != "document" {
+				op["consumes"] = []any{"application/x-www-form-urlencoded"}
+			}
 		}
 		op["parameters"] = []any{p}
 		paths[path] = obj{"post": op}
 	}
 	doc := obj{"swagger": "2.0", "info": obj{"title": "verif params", "version": "1"},
 		"produces": []any{"application/json"}, "consumes": []any{"application/json"}, "paths": paths}
+	if *media == "document" {
+		// the document consumes forms and produces JSON; operations with form parameters inherit that
+		doc["consumes"] = []any{"application/x-www-form-urlencoded"}
+	}
 	return os.WriteFile(*out, mustJSON(doc), 0o644)
 }
